@@ -14,7 +14,8 @@ import Mathlib.Tactic.Linarith
    `bearing_west`, `bearing_west_half`, `bearing_east_half`, `back_bearing_east`, `back_bearing_west`,
    `joins_reverse`
 2. `rotation_scale`
-3. `va_conv_upper`, `va_conv_lower`, `va_pythagoras`, `va_heights`, `va_rejects`, `va_defined`
+3. `va_conv_upper`, `va_conv_lower`, `va_pythagoras`, `va_heights`, `va_rejects`, `va_defined`,
+   `va_second_range`
 4. `fvc_closed_form`, `fvc_proportional_closed`, `fvc_ciddor_form`, `fvc_proportional_co2`,
    `fvc_scale_closed`, `fvc_scale_co2`
 5. `fvc_defined_closed`, `fvc_defined_closed_wet`, `fvc_defined_co2` (+ the rejected cases)
@@ -259,6 +260,13 @@ theorem va_conv_lower (za sd hi ht : ℝ) (h0 : 180 < za) (h1 : za < 360) :
   unfold va_conv
   simp only [feq, if_neg hn, if_neg hu, h0, h1, and_self, if_true]
   rfl
+
+/-- how the code reads the second range: a zenith angle `za + 180` in (180°, 360°) is reduced exactly as `za` in (0°, 180°)
+(`270 − (za + 180) = 90 − za`), all four outputs included — so every statement proved on (0, 180) transfers to (180, 360). -/
+theorem va_second_range (za sd hi ht : ℝ) (h0 : 0 < za) (h1 : za < 180) :
+    va_conv (za + 180) sd hi ht = va_conv za sd hi ht := by
+  have h : (270 : ℝ) - (za + 180) = 90 - za := by ring
+  rw [va_conv_upper _ _ _ _ h0 h1, va_conv_lower _ _ _ _ (by linarith) (by linarith), h]
 
 /-- `va_conv` raises `ValueError` exactly outside (0,180) ∪ (180,360): this direction. -/
 theorem va_rejects (za sd hi ht : ℝ) (hu : ¬ (0 < za ∧ za < 180)) (hl : ¬ (180 < za ∧ za < 360)) :
@@ -661,6 +669,7 @@ end GeodeVerif.C19
 #print axioms GeodeVerif.C19.va_pythagoras
 #print axioms GeodeVerif.C19.va_heights
 #print axioms GeodeVerif.C19.va_rejects
+#print axioms GeodeVerif.C19.va_second_range
 #print axioms GeodeVerif.C19.fvc_proportional_closed
 #print axioms GeodeVerif.C19.fvc_proportional_co2
 #print axioms GeodeVerif.C19.fvc_ciddor_form
